@@ -19,6 +19,8 @@ type Spec struct {
 	Post           func(rep *h.Report, tier string)               // driver-side analysis over the merged report
 	Collect        func(runDir string, rep *h.Report, seed int64) // driver-side collection of artefacts the workers left in runDir
 	ShardsThorough int
+	StallSeconds   int      // >0: a worker that starts no new case for this long is treated as hung (C10)
+	CoverFuncs     []string // rjson functions whose block coverage is reported as evidence
 }
 
 var specs []*Spec
@@ -105,7 +107,7 @@ func init() {
 		Rule:        "inputs: W3, W1, W4, W5; for each document and both traversals, a probe handler that fails at call k (every k for <= 8 callbacks) with a unique sentinel error and an accompanying offset from {0,1,-1,exact,len,len+1,MaxInt,MaxInt-1,MinInt,exact/2,-len}; earlier calls alternate between declining and exact skipping; distinct inputs by hash; non-trivial = (document, traversal kind) pairs with at least one callback",
 		Assumptions: commonAssumptions, MinEvals: 3000000,
 		MinCounters: map[string]int64{"error_returns_observed": 2000000, "failing_member_string": 50000, "failing_member_number": 50000, "failing_member_array": 50000, "failing_member_object": 50000, "failing_member_null": 20000, "failing_member_bool": 20000}})
-	register(&Spec{ID: "C10", Run: RunC10,
+	register(&Spec{ID: "C10", Run: RunC10, StallSeconds: 120,
 		Rule:        "inputs (held in read-only guard pages): raw random bytes and structural soups, a third of the W1 sweep (all of it in thorough), W3, W4 incl. depth 10,001+, W2 sample, W5 megabyte tokens and 1,048,576-deep nestings; each through every exported function (44 call forms; nil/fresh/long-lived buffers, one long-lived ValueReader) and through both traversals under 6 (quick) / 16 (thorough) hostile handler programs returning negative, beyond-end, near-MaxInt, MinInt, off-by-one and mid-token offsets; distinct by hash; non-trivial = at least 2 bytes",
 		Assumptions: append([]string{"non-termination is detected by a stall watchdog (no new case for 120 s) confirmed by a single-case replay under a 10-minute limit; a fired-but-unconfirmed watchdog is inconclusive"}, commonAssumptions...),
 		MinEvals:    20000000,
@@ -157,4 +159,26 @@ func init() {
 		Assumptions: append([]string{"'a fixed constant multiple' is judged with explicit thresholds recorded in the evidence samples: growth ratio < 2.5 over a 4x size step for series allocating >= 256 KB, <= 16 KB per input byte + 1 MB absolutely, and <= 64 bytes per input byte + 8 KB for every small call after the third one following a large document"}, commonAssumptions...),
 		MinEvals:    50000,
 		MinCounters: map[string]int64{"growth_series_measured": 200, "growth_series_judged": 20, "histories_measured": 336}})
+}
+
+func init() {
+	skip := []string{"skipValue", "skipFloatDec", "skipFloatExp", "countWhitespace", "Valid", "SkipValue"}
+	set := func(id string, fns ...string) { SpecByID(id).CoverFuncs = fns }
+	set("C01", skip...)
+	set("C02", skip...)
+	set("C11", "skipValueFast", "SkipValueFast")
+	set("C03", "ValueReader.ReadValue", "ValueReader.ReadObject", "ValueReader.ReadArray", "ValueReader.HandleArrayValue", "ValueReader.HandleObjectValue", "ValueReader.readSimpleValue", "ValueReader.borrowValueReader", "handleArrayValues", "handleObjectValues")
+	set("C04", "ParseJSONFloatPrefix", "readFloat", "atof64exact", "eiselLemire64", "decimal.set", "decimal.floatBits", "decimal.Shift", "decimal.RoundedInteger", "rightShift", "leftShift", "prefixIsLessThan", "shouldRoundUp", "trim", "ReadFloat64")
+	set("C05", "ReadUint64", "ReadInt64", "ReadInt32", "ReadUint32", "ReadInt", "ReadUint")
+	set("C06", "ReadStringBytes", "ReadString", "appendRemainderOfString", "unescapeStringContent", "unescapeUnicodeChar", "getu4", "growBytesSliceCapacity")
+	set("C07", "handleArrayValues", "handleObjectValues")
+	set("C08", "handleArrayValues", "handleObjectValues", "skipValue", "skipValueFast", "appendRemainderOfString", "unescapeStringContent", "readNull", "readBool")
+	set("C09", "handleArrayValues", "handleObjectValues")
+	set("C10", "handleArrayValues", "handleObjectValues", "skipValue", "skipValueFast", "appendRemainderOfString", "unescapeStringContent", "unescapeUnicodeChar", "getu4", "readNull", "readBool", "readFloat", "ReadUint64", "StdLibCompatibleStringBytes")
+	set("C12", "DecodeBool", "DecodeFloat64", "DecodeInt64", "DecodeInt32", "DecodeInt", "DecodeUint64", "DecodeUint32", "DecodeUint", "DecodeString", "nullOrBust")
+	set("C13", "NextToken", "NextTokenType", "readNull", "readBool", "countWhitespace")
+	set("C14", "handleArrayValues", "handleObjectValues", "skipValue", "skipValueFast")
+	set("C15", "ValueReader.ReadValue", "ValueReader.ReadObject", "ValueReader.ReadArray", "ValueReader.HandleArrayValue", "ValueReader.HandleObjectValue", "ValueReader.borrowValueReader", "ValueReader.returnValueReader")
+	set("C16", "ReadStringBytes", "ReadString", "appendRemainderOfString", "unescapeStringContent", "unescapeUnicodeChar", "growBytesSliceCapacity", "StdLibCompatibleStringBytes")
+	set("C17", "StdLibCompatibleString", "StdLibCompatibleStringBytes", "StdLibCompatibleSlice", "StdLibCompatibleMap")
 }
